@@ -21,12 +21,12 @@ RULES = {
           "`img is not self._source` (a PIL image supplied by the caller is never closed)",
     "R2": "every renderer releases the image it was given: on every normal path through each _render_image override the image has passed a release "
           "(`if frame_img is not img: self._close_image(img)`, or an unconditional `self._close_image(img)`), n_frames releases in a finally, "
-          "_display_animated in its finally",
+          "_display_animated in its finally (the release condition is decided on the 4 valuations of (frame, image still the one passed in) when it is not the baseline idiom)",
     "R3": "no overwrite before release: in _get_render_data / convert_resize_img every rebinding of `img` to a new image releases the previous one "
           "under `frame_img is not <previous>` - in a `finally` for the fallible steps (convert, resize), before the rebinding for the composite branches",
     "R4": "iterator bookkeeping: the image handed to ImageIterator._animate is recorded (self._img) for close(); close() closes the generator then "
           "releases the image; __next__ closes on every handler; _animate sets image._seek_position before every render and back to 0 at each end of "
-          "pass; a generator object that owns an opened image is never discarded or overwritten without releasing that image",
+          "pass; a generator object that owns an opened image is never discarded or overwritten without releasing that image; shared with C09.R5: frames served from ImageIterator's cache are validated against the current rendered size",
     "R5": "plain files and temp files: every object returned by the builtin open() is used in a `with`; from_url creates the temp copy only after "
           "the instance was constructed successfully, and removes it again if writing fails; close() removes the copy iff the source is a URL and "
           "tolerates its absence; the temp directory is removed by an atexit hook",
@@ -340,7 +340,12 @@ def run(ck, m):
                 writers.add(f"{rel}::{getattr(st, '_q', '')}")
     allowed = {f"{CM}::BaseImage.size#2", f"{CM}::BaseImage.set_size", "widget/_urwid.py::UrwidImage.render", f"{CM}::BaseImage.size"}
     ck.ob("R6", rn, writers <= allowed, f"`_size` is written in {sorted(writers - allowed)}; only the size setter, set_size and (documented) UrwidImage.render may", stmt="writers of _size")
-
+    # ---- shared with C09.R5: frames served from ImageIterator's cache are the frames a fresh render would give
+    from tiv.report import Scoped
+    import rules.c09 as c09
+    sc9 = Scoped(ck, "R4", lambda c: c.endswith("ImageIterator._animate"), rids={"R5"})
+    c09.run(sc9, m)
+    ck.expect(sc9.kept >= 4, f"expected the ImageIterator cache obligations of C09.R5 (got {sc9.kept})")
 
 
 def _anc(n):
